@@ -17,15 +17,18 @@ open DfModel.Mech.AccessPlan DfModel.Proofs.C24
 /-- **row_selection_ops_spec.** Each operation of the selection algebra against the mask meaning:
     normalisation (`FromIterator`) keeps the mask; `intersection` is the pointwise AND (the tail of the
     longer selection passes through); `split_off n` is `take n` / `drop n`; `limit k` keeps the mask up to
-    the k-th selected row; `and_then` (when it does not panic) is the composition "other is applied to the
+    the k-th selected row; `offset k` deselects the first k selected rows (or empties the selection if there
+    are at most k); `and_then` (when it does not panic) is the composition "other is applied to the
     rows self selected". -/
 theorem row_selection_ops_spec (a b : Sel) (n k : Nat) :
     mask (normalize a) = mask a ∧
     mask (intersection a b) = zipTail (mask a) (mask b) ∧
     (mask (splitOff a n).1 = (mask a).take n ∧ mask (splitOff a n).2 = (mask a).drop n) ∧
     mask (limitSel a k) = takeTrues (mask a) k ∧
+    mask (offsetSel a k) = (if countTrue (mask a) ≤ k then [] else clearTrues (mask a) k) ∧
     (∀ c, andThen a b = some c → compose (mask a) (mask b) = some (mask c)) :=
-  ⟨mask_normalize a, mask_intersection a b, mask_splitOff a n, mask_limit a k, fun c h => mask_andThen a b c h⟩
+  ⟨mask_normalize a, mask_intersection a b, mask_splitOff a n, mask_limit a k, mask_offset a k,
+   fun c h => mask_andThen a b c h⟩
 
 /-- what a row group contributes to the scan under an access, given the verdicts that produced it -/
 def accessSound {α : Type} (p : α → Bool) (rows : List α) (a : Access) : Prop :=
